@@ -367,6 +367,12 @@ class Gen:
         if is_elem and r.random() < self.p.get("p_label", 0.0):
             extras.append([{"form": "str", "s": "prov:label"}, self.rand_value(t, kinds=("str", "str", "lang"))])
         via = r.choice(["new_record", "factory"])
+        if kind == "Membership" and "entity" in args and r.random() < self.p.get("multi_member", 0.0):
+            # one hadMember record listing several members (what PROV-JSON arrays and several prov:entity children in PROV-XML
+            # denote); created in a single call, the only way the API offers
+            via = "new_record"
+            for _ in range(r.randint(1, 2)):
+                extras.append([{"form": "str", "s": "prov:entity"}, {"k": "qn", "name": self.rand_name(t, forms=("qn",))}])
         label = "R%d" % self.nrec
         self.nrec += 1
         op = ["rec", t, kind, rid, args, extras, via, label]
